@@ -157,9 +157,11 @@ Proof. exact ex_d_ok. Qed.
 
 (* The same with a DECIDABLE hypothesis in place of dok / table_disjoint:
    names_ok root = true (coq/Ports/NamesModel.v; evaluated on every generated
-   tree by the tie): names of the macro shape, literal text without digits, and
-   the keys of the ports of every table - the path part with each '#N' replaced
-   by '#' - pairwise not prefixes of one another.  table_disjoint follows by
+   tree by the tie): names of the macro shape (sub-tree names of one or more
+   components; literal text may hold digits, the text behind a '#N' does not
+   begin with one), and the keys of the ports of every table - the path part
+   with each '#N' and each digit run of the literal text replaced by '#' -
+   pairwise not prefixes of one another.  table_disjoint follows by
    C05's soundness direction (whatever a name matches spells it, C05_no_spurious)
    and the shape of an address (its digit runs collapsed to '#'). *)
 Theorem C09_dispatchable_names_ok : forall hp tid root id a ty o,
